@@ -2,8 +2,8 @@
    Property theorems only; proofs are in ProofsCodec / ProofsRecv / ProofsReasm / ProofsMain. *)
 From Coq Require Import List NArith Bool.
 Import ListNotations.
-From TV Require Import C18.Model C14.Utf8 C14.Model C14.Peer
-  C14.ProofsCodec C14.ProofsRecv C14.ProofsReasm C14.ProofsMain.
+From TV Require Import Lib.Obs C18.Model C14.Utf8 C14.Utf8Proofs C14.Model C14.Run C14.Peer
+  C14.ProofsCodec C14.ProofsRecv C14.ProofsReasm C14.ProofsMain C14.ProofsE2E C14.ProofsClose.
 Local Open Scope N_scope.
 
 (* (RT) The frame decoder inverts the encoder: every payload length below 2^64 (7-bit,
@@ -91,3 +91,91 @@ Theorem C14_zlib_premise_satisfiable :
     exists zs', id_inflate zs fresh out max = (ZOk m true, zs') /\ (fun _ _ : unit => True) ds' zs'.
 Proof. exact id_zlib_ok. Qed.
 Print Assumptions C14_zlib_premise_satisfiable.
+
+(* str.encode("utf-8") then bytes.decode("utf-8") is the identity on every string Python can
+   encode (the leading bytes depend only on c / 64: sweep over its 17 408 values, last byte
+   symbolic, then induction). *)
+Theorem C14_utf8_roundtrip : forall cs b, utf8_encode cs = Some b -> utf8_decode b = Some cs.
+Proof. exact utf8_roundtrip. Qed.
+Print Assumptions C14_utf8_roundtrip.
+
+(* End to end.  The application on one end calls write_message for any list of str / bytes
+   messages (any masking keys, compression off / on with or without context takeover, the
+   same setting on both ends); the other end's receive loop reads exactly the bytes written
+   (all frames and messages within max_message_size): its on_message sees exactly the same
+   messages (str as str, bytes as bytes), in order, and the connection stays up. *)
+Theorem C14_end_to_end :
+  forall ist dst z_inflate z_deflate (sync : dst -> ist -> Prop),
+    (forall ds zs fresh m max out ds',
+        sync ds zs -> z_deflate ds fresh m = (Some out, ds') -> blen m <= max ->
+        exists zs', z_inflate zs fresh out max = (ZOk m true, zs') /\ sync ds' zs') ->
+  forall (sc : scfg) (rc : rcfg) eof z0 ds0 ams ws,
+    s_comp sc = r_decomp rc ->
+    r_max rc < 2 ^ 64 ->
+    send_all_wires dst z_deflate sc ds0 ams = Some ws ->
+    (s_mask sc = true -> Forall (fun am : amsg => length (snd am) = 4%nat) ams) ->
+    Forall (fun w => blen w <= r_max rc) ws ->
+    Forall (fun am => match app_bytes am with Some m => blen m <= r_max rc | None => True end) ams ->
+    match r_decomp rc with Some _ => sync ds0 z0 | None => True end ->
+    exists st,
+      recv_wire ist z_inflate rc eof (rinit z0) (concat ws)
+      = (if eof then Done (abort ist st) else Waiting st) /\
+      messages_of (rev (r_events st)) = map app_delivery ams /\
+      r_closed st = false.
+Proof. exact end_to_end. Qed.
+Print Assumptions C14_end_to_end.
+
+(* Configuration glue (_create_compressors / _get_compressor_options / the constructors):
+   for EVERY agreed-parameter dict, if both ends accept it, each end's compressor has the
+   context-takeover flag and window bits of the other end's decompressor (the "same setting
+   on both ends" premise above); and every dict of known parameters with window bits 9-15
+   (or without value) is accepted by both ends. *)
+Theorem C14_negotiation_agrees :
+  forall a c1 d1 c2 d2,
+    create_compressors true a = Some (c1, d1) -> create_compressors false a = Some (c2, d2) ->
+    c1 = d2 /\ c2 = d1.
+Proof. exact negotiation_agrees. Qed.
+Print Assumptions C14_negotiation_agrees.
+
+Theorem C14_negotiation_total :
+  forall client a,
+    (forall k v, pget k a = Some v -> k <> KOther /\ ((k = KServerBits \/ k = KClientBits) -> pval_ok v)) ->
+    exists c d, create_compressors client a = Some (c, d).
+Proof. exact negotiation_total. Qed.
+Print Assumptions C14_negotiation_total.
+
+(* The closing handshake, for every status code < 65536 and every UTF-8 reason of at most
+   123 bytes: close(code, reason) on end A writes one close frame; end B's loop reads it,
+   records exactly that code and reason, echoes the code, closes its stream and leaves the
+   loop delivering nothing; end A reads the echo, closes, and does not write a second frame. *)
+Theorem C14_close_handshake :
+  forall ist z_inflate cfgA cfgB zA zB eof (c : N) (r : bytes) cps,
+    c < 65536 -> blen r <= 123 -> utf8_decode r = Some cps ->
+    key_ok (r_key cfgA) -> key_ok (r_key cfgB) ->
+    blen r + 2 <= r_max cfgB -> 2 <= r_max cfgA ->
+    let d := store BE 2 c ++ r in
+    let w := encode_frame (close_frame (r_key cfgA) d) in
+    let w2 := encode_frame (close_frame (r_key cfgB) (store BE 2 c)) in
+    exists stA,
+      ws_close ist cfgA (rinit zA) (Some c) (Some r) = (stA, None) /\
+      r_sent stA = [w] /\ r_sterm stA = true /\ r_closed stA = false /\
+      exists stB,
+        recv_wire ist z_inflate cfgB eof (rinit zB) w = Done stB /\
+        r_ccode stB = Some c /\ r_creason stB = (if is_nil r then None else Some cps) /\
+        r_closed stB = true /\ r_events stB = [] /\ r_sent stB = [w2] /\
+        exists stA',
+          recv_wire ist z_inflate cfgA eof stA w2 = Done stA' /\
+          r_closed stA' = true /\ r_ccode stA' = Some c /\ r_sent stA' = [w] /\ r_events stA' = [].
+Proof. exact close_handshake. Qed.
+Print Assumptions C14_close_handshake.
+
+(* on well-formed UTF-8 the lenient decoder used for close reasons is the strict one *)
+Theorem C14_lenient_decoder_agrees_on_valid_utf8 :
+  forall l cps, utf8_decode l = Some cps -> utf8_lenient l = cps.
+Proof. exact lenient_of_valid. Qed.
+Print Assumptions C14_lenient_decoder_agrees_on_valid_utf8.
+
+(* the property checker accepts the model on every negotiation case *)
+Theorem C14_check_accepts_model_negotiation : forall a, check_case (CNeg a) (run_case (CNeg a)) = true.
+Proof. exact check_accepts_model_neg. Qed.
+Print Assumptions C14_check_accepts_model_negotiation.
